@@ -1560,13 +1560,26 @@ func (fg *FuncGen) frameObligations(st *State) {
 	if fs.all {
 		return
 	}
+	// the declared frame is proved first and assumed afterwards, so a frame sweep that covers this
+	// function rests on these obligations: they carry the sweep's properties too (a per-property run
+	// would otherwise prove the sweep from an assumption it never checks)
+	props := append([]string{}, fg.ct.Props...)
+	for _, sw := range fg.g.cs.FrameSweeps {
+		if sw.Pkg == fg.fn.Pkg.Pkg.Path() && sweepMatch(sw, methodKey(fg.fn)) {
+			for _, p := range sw.Props {
+				if !hasProp(props, p) {
+					props = append(props, p)
+				}
+			}
+		}
+	}
 	if st.epoch != 0 {
-		fg.oblige("frame", "whole heap havocked by an uncontracted call", "false", fg.ct.Props, "modifies")
+		fg.oblige("frame", "whole heap havocked by an uncontracted call", "false", props, "modifies")
 		return
 	}
 	for _, cn := range sortedKeys(st.heap) {
 		if f := fg.frameFormula(st, cn); f != "" {
-			fg.oblige("frame", cn+" unchanged outside the declared frame", f, fg.ct.Props, "modifies")
+			fg.oblige("frame", cn+" unchanged outside the declared frame", f, props, "modifies")
 		}
 	}
 }
